@@ -15,7 +15,7 @@ pub struct Case13 {
     pub doc: DocD,
     /// overlay layer (index, layer) or none
     pub overlay: Option<(usize, LayerD)>,
-    /// L1..L13
+    /// L1..L14
     pub law: u8,
     /// law parameters: (index, dx, dy, seed)
     pub p: (usize, i32, i32, u64),
@@ -459,6 +459,22 @@ fn run(case: &Case13) -> Option<(String, Value)> {
             }
             None
         }
+        14 => {
+            // a chars-mode layer contributes glyphs only: which colours its cells with a non-blank glyph store is irrelevant
+            // (a blank - NUL or space - on black is the engine's "nothing here"; every other glyph, 0xFF included, is a glyph)
+            if !d.layers.iter().any(|l| l.mode == 1) {
+                return None;
+            }
+            let mut d2 = d.clone();
+            for l in d2.layers.iter_mut().filter(|l| l.mode == 1) {
+                for c in l.cells.iter_mut().filter(|c| c.ch != 0 && c.ch != 0x20) {
+                    c.fg = rng.below(16) as u32;
+                    c.bg = if c.bg == 0 { 1 + rng.below(7) as u32 } else { 0 };
+                }
+            }
+            let b2 = build(&d2, &case.overlay);
+            diff_at(&base, &b2, bb, 0, 0).and_then(|r| report("L14-colours-stored-in-a-chars-layer-matter", "colours of the non-blank cells of chars-mode layers exchanged".into(), r))
+        }
         13 => {
             // a chars-mode layer contributes glyphs only: where the first normal-mode contribution at a position is a cell
             // with solid colours (no opaque layer without a cell before it, no transparent-colour cell), the colours shown
@@ -547,7 +563,7 @@ fn gen_layer(rng: &mut Rng, normal_only: bool, transparent: bool) -> LayerD {
             continue;
         }
         let half = transparent && rng.chance(1, 5);
-        let ch = if half { *rng.pick(&[0xDFu32, 0xDC, 0xDB, 0x41]) } else { *rng.pick(&[0x41u32, 0x42, 0x20, 0xDB, 0xDF, 0xDC, 0x00]) };
+        let ch = if half { *rng.pick(&[0xDFu32, 0xDC, 0xDB, 0x41]) } else { *rng.pick(&[0x41u32, 0x42, 0x20, 0xDB, 0xDF, 0xDC, 0x00, 0xFF]) };
         let (fg, bg) = if half { if rng.bool() { (rng.below(16) as u32, TR) } else { (TR, rng.below(8) as u32) } } else { (rng.below(16) as u32, rng.below(8) as u32) };
         l.cells.push(CellD { x, y, ch, fg, bg, attr: if rng.chance(1, 6) { icy_engine::attribute::BOLD } else { 0 }, fp: 0 });
     }
@@ -565,7 +581,7 @@ pub struct C13 {}
 impl C13 {
     fn case_for(&self, ctx: &Ctx, k: u64) -> Case13 {
         let mut rng = ctx.rng(k);
-        let law = 1 + (k % 13) as u8;
+        let law = 1 + (k % 14) as u8;
         let normal_only = law == 6 || law == 7 || law == 9 || (law != 10 && rng.chance(1, 3));
         let transparent = law == 7 || law == 9 || law == 11 || law == 12 || (law != 6 && rng.chance(1, 2));
         let mut d = DocD::single(10, 6);
@@ -617,6 +633,11 @@ impl C13 {
             if !d.layers.iter().any(|l| l.mode == 1) {
                 d.layers[n - 1].mode = 1;
             }
+        }
+        if law == 14 && !d.layers.iter().any(|l| l.mode == 1) {
+            let i = rng.usize(d.layers.len());
+            d.layers[i].mode = 1;
+            d.layers[i].visible = true;
         }
         if law == 10 && !d.layers.iter().any(|l| l.mode == 2) {
             let i = rng.usize(d.layers.len());
@@ -733,7 +754,7 @@ impl Prop for C13 {
         "C13"
     }
     fn rule(&self) -> &'static str {
-        "stacks of 1..=5 layers (sizes 1..=12 x 1..=8, offsets -4..=6, normal/chars/attributes mode, alpha or opaque, visible or hidden, sparse content incl. transparent-colour half blocks, a third of the layers storing no rows beyond their last cell - none at all when they hold no cell -, optional overlay) are queried with Buffer::get_char at every position of the bounding box plus a 2-cell border before and after a transformation that the stacking laws say is invisible: L1 insert an empty alpha layer at a stack index; L2 rewrite the cells of a hidden layer; L3 translate every layer and the overlay by d and query at p+d; L4 remove all layers below a visible opaque normal-mode layer and query inside its rectangle (also where the opaque layer's own cell uses the transparent colour); L5 move a layer and query positions it covers neither before nor after; L6 compare with a 15-line reference compositor on the fragment 'all layers normal mode, no transparent colours, no overlay'; L7 on normal-mode stacks with transparent-colour cells the topmost visible cell supplies the glyph and each of its own non-transparent colours; L8 give the invisible cells of alpha layers a payload (glyph, colours, flags next to the INVISIBLE flag); L9 where the topmost cell is a half block (220/223) with one transparent colour above another half block, change the colour of the lower cell's half that lies behind the topmost cell's solid half; L10 exchange the glyphs stored in attributes-mode layers (blank <-> non-blank); L11 the first opaque contribution ends the walk: where the layers from a visible normal-mode layer i upward, with a cell of layer i at the position, show a visible cell with solid colours, the whole stack shows the same cell (two thirds of these stacks have a dense attributes- or chars-mode layer on top); L12 a transparent colour shows the cell beneath as it is displayed: where the topmost cell (alpha layer, only normal-mode layers above) has one transparent colour and a solid cell follows beneath before any opaque layer, the position shows that cell resolved with Buffer::make_solid_color against what the position shows once the cell is taken away - with chars- and attributes-mode layers in between - and nothing transparent is left over a solid cell, also when both colours of the topmost cell were transparent; L13 a chars-mode layer contributes glyphs only: where the first normal-mode contribution is a cell with solid colours, the colours shown are the same with every chars-mode layer hidden. Invisible results are compared as invisible only. distinct_nontrivial = distinct (law, stack shape, parameters) instances"
+        "stacks of 1..=5 layers (sizes 1..=12 x 1..=8, offsets -4..=6, normal/chars/attributes mode, alpha or opaque, visible or hidden, sparse content incl. transparent-colour half blocks, a third of the layers storing no rows beyond their last cell - none at all when they hold no cell -, optional overlay) are queried with Buffer::get_char at every position of the bounding box plus a 2-cell border before and after a transformation that the stacking laws say is invisible: L1 insert an empty alpha layer at a stack index; L2 rewrite the cells of a hidden layer; L3 translate every layer and the overlay by d and query at p+d; L4 remove all layers below a visible opaque normal-mode layer and query inside its rectangle (also where the opaque layer's own cell uses the transparent colour); L5 move a layer and query positions it covers neither before nor after; L6 compare with a 15-line reference compositor on the fragment 'all layers normal mode, no transparent colours, no overlay'; L7 on normal-mode stacks with transparent-colour cells the topmost visible cell supplies the glyph and each of its own non-transparent colours; L8 give the invisible cells of alpha layers a payload (glyph, colours, flags next to the INVISIBLE flag); L9 where the topmost cell is a half block (220/223) with one transparent colour above another half block, change the colour of the lower cell's half that lies behind the topmost cell's solid half; L10 exchange the glyphs stored in attributes-mode layers (blank <-> non-blank); L11 the first opaque contribution ends the walk: where the layers from a visible normal-mode layer i upward, with a cell of layer i at the position, show a visible cell with solid colours, the whole stack shows the same cell (two thirds of these stacks have a dense attributes- or chars-mode layer on top); L12 a transparent colour shows the cell beneath as it is displayed: where the topmost cell (alpha layer, only normal-mode layers above) has one transparent colour and a solid cell follows beneath before any opaque layer, the position shows that cell resolved with Buffer::make_solid_color against what the position shows once the cell is taken away - with chars- and attributes-mode layers in between - and nothing transparent is left over a solid cell, also when both colours of the topmost cell were transparent; L13 a chars-mode layer contributes glyphs only: where the first normal-mode contribution is a cell with solid colours, the colours shown are the same with every chars-mode layer hidden; L14 the colours stored in the non-blank cells of chars-mode layers (every glyph but NUL and space, 0xFF included) are irrelevant. Invisible results are compared as invisible only. distinct_nontrivial = distinct (law, stack shape, parameters) instances"
     }
     fn meta(&self, ctx: &Ctx) -> Value {
         json!({"floor_evaluations": 5000, "floor_distinct": ctx.tier.pick(5000u64, 100000u64),
